@@ -2,135 +2,191 @@ import SamVerif.Model.Fmt
 /-!
 Helper lemmas for C08 (`Props/C08.lean`).
 
-The fuelled parser functions of `Model/Fmt.lean` are wrapped into fuel-independent relations
-(`PLevel k ts e r`: for every sufficiently large recursion budget, `parseLevel · k ts` returns
-`(e, r)`), for which the compositional rules of a recursive-descent parser hold.  The main lemma
-`main` is the loop invariant of precedence climbing: printing `e` and continuing with `rest`
-parses back to `e` and then continues the loop of `e`'s own level with `e` as accumulator.
+The fuelled parser functions of `Model/Fmt.lean` are wrapped into relations with an explicit
+sufficient recursion budget (`PLevel n k ts e r`: for every budget ≥ `n`, `parseLevel · k ts`
+returns `(e, r)`), for which the compositional rules of a recursive-descent parser hold.  The main
+lemma `main` is the loop invariant of precedence climbing: printing `e` and continuing with `rest`
+parses back to `e` and then continues the loop of `e`'s own level with `e` as accumulator; its
+budget is `B e + (budget of the continuation)`, and `B e` is linear in the number of printed tokens.
 -/
 namespace SamVerif.Fmt
 
-def PBase (ts : List Tok) (e : Expr) (r : List Tok) : Prop :=
-  ∃ n, ∀ f, n ≤ f → parseBase f ts = some (e, r)
-def PUn (ts : List Tok) (e : Expr) (r : List Tok) : Prop :=
-  ∃ n, ∀ f, n ≤ f → parseUnary f ts = some (e, r)
-def PLevel (k : Nat) (ts : List Tok) (e : Expr) (r : List Tok) : Prop :=
-  ∃ n, ∀ f, n ≤ f → parseLevel f k ts = some (e, r)
-def PLoop (k : Nat) (acc : Expr) (ts : List Tok) (e : Expr) (r : List Tok) : Prop :=
-  ∃ n, ∀ f, n ≤ f → parseLoop f k acc ts = some (e, r)
+def PTop (n : Nat) (ts : List Tok) (e : Expr) (r : List Tok) : Prop :=
+  ∀ f, n ≤ f → parseTop f ts = some (e, r)
+def PBase (n : Nat) (ts : List Tok) (e : Expr) (r : List Tok) : Prop :=
+  ∀ f, n ≤ f → parseBase f ts = some (e, r)
+def PUn (n : Nat) (ts : List Tok) (e : Expr) (r : List Tok) : Prop :=
+  ∀ f, n ≤ f → parseUnary f ts = some (e, r)
+def PLevel (n k : Nat) (ts : List Tok) (e : Expr) (r : List Tok) : Prop :=
+  ∀ f, n ≤ f → parseLevel f k ts = some (e, r)
+def PLoop (n k : Nat) (acc : Expr) (ts : List Tok) (e : Expr) (r : List Tok) : Prop :=
+  ∀ f, n ≤ f → parseLoop f k acc ts = some (e, r)
 
-theorem pbase_atom (a : Nat) (r : List Tok) : PBase (.atom a :: r) (.atom a) r :=
-  ⟨1, fun f hf => by
-    obtain ⟨f', rfl⟩ : ∃ f', f = f' + 1 := ⟨f - 1, by omega⟩
-    simp [parseBase]⟩
+theorem PTop.mono {n n' ts e r} (h : PTop n ts e r) (hn : n ≤ n') : PTop n' ts e r :=
+  fun f hf => h f (by omega)
+theorem PBase.mono {n n' ts e r} (h : PBase n ts e r) (hn : n ≤ n') : PBase n' ts e r :=
+  fun f hf => h f (by omega)
+theorem PLevel.mono {n n' k ts e r} (h : PLevel n k ts e r) (hn : n ≤ n') : PLevel n' k ts e r :=
+  fun f hf => h f (by omega)
+theorem PLoop.mono {n n' k a ts e r} (h : PLoop n k a ts e r) (hn : n ≤ n') : PLoop n' k a ts e r :=
+  fun f hf => h f (by omega)
 
-theorem pbase_paren {ts : List Tok} {e : Expr} {r : List Tok}
-    (h : PLevel 0 ts e (.rp :: r)) : PBase (.lp :: ts) e r := by
-  obtain ⟨n, hn⟩ := h
-  refine ⟨n + 1, fun f hf => ?_⟩
-  obtain ⟨f', rfl⟩ : ∃ f', f = f' + 1 := ⟨f - 1, by omega⟩
-  simp [parseBase, hn f' (by omega)]
+theorem succ_of_le {n f : Nat} (h : n + 1 ≤ f) : ∃ f', f = f' + 1 ∧ n ≤ f' := ⟨f - 1, by omega, by omega⟩
 
-theorem pun_not {ts : List Tok} {e : Expr} {r : List Tok}
-    (h : PBase ts e r) : PUn (.bang :: ts) (.unary .not e) r := by
-  obtain ⟨n, hn⟩ := h
-  refine ⟨n + 1, fun f hf => ?_⟩
-  obtain ⟨f', rfl⟩ : ∃ f', f = f' + 1 := ⟨f - 1, by omega⟩
-  simp [parseUnary, hn f' (by omega)]
+/-- the input does not start with a keyword-introduced expression. -/
+def notKw (ts : List Tok) : Prop := ∀ k r, ts ≠ .kwIf k :: r ∧ ts ≠ .kwMatch k :: r
+/-- the input does not start with a unary operator. -/
+def startsBase (ts : List Tok) : Prop := ∀ r, ts ≠ .bang :: r ∧ ts ≠ .op .minus :: r
 
-theorem pun_neg {ts : List Tok} {e : Expr} {r : List Tok}
-    (h : PBase ts e r) : PUn (.op .minus :: ts) (.unary .neg e) r := by
-  obtain ⟨n, hn⟩ := h
-  refine ⟨n + 1, fun f hf => ?_⟩
-  obtain ⟨f', rfl⟩ : ∃ f', f = f' + 1 := ⟨f - 1, by omega⟩
-  simp [parseUnary, hn f' (by omega)]
+theorem ptop_if (k : Nat) (r : List Tok) : PTop 1 (.kwIf k :: r) (.ifElse k) r := by
+  intro f hf; obtain ⟨f', rfl, _⟩ := succ_of_le hf; simp [parseTop]
+theorem ptop_match (k : Nat) (r : List Tok) : PTop 1 (.kwMatch k :: r) (.matchE k) r := by
+  intro f hf; obtain ⟨f', rfl, _⟩ := succ_of_le hf; simp [parseTop]
 
-theorem pun_atom {a : Nat} {t : List Tok} {e : Expr} {r : List Tok}
-    (h : PBase (.atom a :: t) e r) : PUn (.atom a :: t) e r := by
-  obtain ⟨n, hn⟩ := h
-  refine ⟨n + 1, fun f hf => ?_⟩
-  obtain ⟨f', rfl⟩ : ∃ f', f = f' + 1 := ⟨f - 1, by omega⟩
-  simp [parseUnary, hn f' (by omega)]
+theorem ptop_level {n ts e r} (h : PLevel n 0 ts e r) (hk : notKw ts) : PTop (n + 1) ts e r := by
+  intro f hf
+  obtain ⟨f', rfl, hf'⟩ := succ_of_le hf
+  rw [parseTop]
+  · exact h f' hf'
+  · intro k ts' he; exact (hk k ts').2 he
+  · intro k ts' he; exact (hk k ts').1 he
 
-theorem pun_lp {t : List Tok} {e : Expr} {r : List Tok}
-    (h : PBase (.lp :: t) e r) : PUn (.lp :: t) e r := by
-  obtain ⟨n, hn⟩ := h
-  refine ⟨n + 1, fun f hf => ?_⟩
-  obtain ⟨f', rfl⟩ : ∃ f', f = f' + 1 := ⟨f - 1, by omega⟩
-  simp [parseUnary, hn f' (by omega)]
+theorem pbase_atom (a : Nat) (r : List Tok) : PBase 1 (.atom a :: r) (.atom a) r := by
+  intro f hf; obtain ⟨f', rfl, _⟩ := succ_of_le hf; simp [parseBase]
 
-theorem plevel_un {k : Nat} (hk : 6 ≤ k) {ts : List Tok} {e : Expr} {r : List Tok}
-    (h : PUn ts e r) : PLevel k ts e r := by
-  obtain ⟨n, hn⟩ := h
-  refine ⟨n + 1, fun f hf => ?_⟩
-  obtain ⟨f', rfl⟩ : ∃ f', f = f' + 1 := ⟨f - 1, by omega⟩
-  simp [parseLevel, hk, hn f' (by omega)]
+theorem pbase_paren {n ts e r} (h : PTop n ts e (.rp :: r)) : PBase (n + 1) (.lp :: ts) e r := by
+  intro f hf; obtain ⟨f', rfl, hf'⟩ := succ_of_le hf; simp [parseBase, h f' hf']
 
-theorem plevel_step {k : Nat} (hk : k < 6) {ts : List Tok} {x e : Expr} {r1 r : List Tok}
-    (h1 : PLevel (k + 1) ts x r1) (h2 : PLoop k x r1 e r) : PLevel k ts e r := by
-  obtain ⟨n1, hn1⟩ := h1
-  obtain ⟨n2, hn2⟩ := h2
-  refine ⟨n1 + n2 + 1, fun f hf => ?_⟩
-  obtain ⟨f', rfl⟩ : ∃ f', f = f' + 1 := ⟨f - 1, by omega⟩
-  have : ¬ (6 ≤ k) := by omega
-  simp [parseLevel, this, hn1 f' (by omega), hn2 f' (by omega)]
+theorem pbase_lam {n ts body r} (k : Nat) (h : PTop n ts body r) :
+    PBase (n + 1) (.lam k :: ts) (.lambda k body) r := by
+  intro f hf; obtain ⟨f', rfl, hf'⟩ := succ_of_le hf; simp [parseBase, h f' hf']
 
-/-- the leading token of `ts` is not an operator of level ≥ `k`. -/
+theorem pun_not {n ts e r} (h : PLevel n 6 ts e r) : PUn (n + 1) (.bang :: ts) (.unary .not e) r := by
+  intro f hf; obtain ⟨f', rfl, hf'⟩ := succ_of_le hf; simp [parseUnary, h f' hf']
+
+theorem pun_neg {n ts e r} (h : PLevel n 6 ts e r) :
+    PUn (n + 1) (.op .minus :: ts) (.unary .neg e) r := by
+  intro f hf; obtain ⟨f', rfl, hf'⟩ := succ_of_le hf; simp [parseUnary, h f' hf']
+
+theorem pun_other {n ts e r} (h : PLevel n 6 ts e r) (hs : startsBase ts) : PUn (n + 1) ts e r := by
+  intro f hf
+  obtain ⟨f', rfl, hf'⟩ := succ_of_le hf
+  rw [parseUnary]
+  · exact h f' hf'
+  · intro ts' he; exact (hs ts').1 he
+  · intro ts' he; exact (hs ts').2 he
+
+theorem plevel6 {n1 n2 k ts x e r1 r} (hk : 6 ≤ k) (h1 : PBase n1 ts x r1)
+    (h2 : PLoop n2 6 x r1 e r) : PLevel (n1 + n2 + 1) k ts e r := by
+  intro f hf
+  obtain ⟨f', rfl, hf'⟩ := succ_of_le hf
+  simp [parseLevel, hk, h1 f' (by omega), h2 f' (by omega)]
+
+theorem plevel5 {n ts e r} (h : PUn n ts e r) : PLevel (n + 1) 5 ts e r := by
+  intro f hf
+  obtain ⟨f', rfl, hf'⟩ := succ_of_le hf
+  simp [parseLevel, h f' hf']
+
+theorem plevel_step {n1 n2 k ts x e r1 r} (hk : k < 5) (h1 : PLevel n1 (k + 1) ts x r1)
+    (h2 : PLoop n2 k x r1 e r) : PLevel (n1 + n2 + 1) k ts e r := by
+  intro f hf
+  obtain ⟨f', rfl, hf'⟩ := succ_of_le hf
+  have a : ¬ (6 ≤ k) := by omega
+  have b : ¬ (k = 5) := by omega
+  simp [parseLevel, a, b, h1 f' (by omega), h2 f' (by omega)]
+
+/-- the loop level that would consume the token, if any. -/
+def bl : Tok → Option Nat
+  | .op o => some o.plevel
+  | .post _ => some 6
+  | _ => none
+
+/-- the leading token of `ts` is not consumed by the loop of any level ≥ `k`. -/
 def stopsAbove (k : Nat) (ts : List Tok) : Prop :=
-  ∀ o t, ts = .op o :: t → o.plevel < k
+  ∀ t rest b, ts = t :: rest → bl t = some b → b < k
+
+theorem plevel_le4 (o : BinOp) : o.plevel ≤ 4 := by cases o <;> decide
+
+theorem bl_le6 {t : Tok} {b : Nat} (h : bl t = some b) : b ≤ 6 := by
+  cases t <;> simp [bl] at h
+  · have := plevel_le4 ‹BinOp›; omega
+  · omega
 
 theorem ploop_stop {k : Nat} {e : Expr} {ts : List Tok}
-    (h : ∀ o t, ts = .op o :: t → o.plevel ≠ k) : PLoop k e ts e ts := by
-  refine ⟨1, fun f hf => ?_⟩
-  obtain ⟨f', rfl⟩ : ∃ f', f = f' + 1 := ⟨f - 1, by omega⟩
+    (h : ∀ t rest, ts = t :: rest → bl t ≠ some k) : PLoop 1 k e ts e ts := by
+  intro f hf
+  obtain ⟨f', rfl, _⟩ := succ_of_le hf
   cases ts with
   | nil => simp [parseLoop]
   | cons t ts =>
+    have ht := h t ts rfl
     cases t with
     | op o =>
-      have := h o ts rfl
+      have : ¬ o.plevel = k := by simpa [bl] using ht
+      simp [parseLoop, this]
+    | post p =>
+      have : ¬ k = 6 := by intro e; apply ht; simp [bl, e]
       simp [parseLoop, this]
     | lp => simp [parseLoop]
     | rp => simp [parseLoop]
     | bang => simp [parseLoop]
     | atom a => simp [parseLoop]
+    | kwIf a => simp [parseLoop]
+    | kwMatch a => simp [parseLoop]
+    | lam a => simp [parseLoop]
 
-theorem ploop_step {k : Nat} {o : BinOp} (ho : o.plevel = k) {acc x e : Expr}
-    {ts r1 r : List Tok} (h1 : PLevel (k + 1) ts x r1) (h2 : PLoop k (.binary o acc x) r1 e r) :
-    PLoop k acc (.op o :: ts) e r := by
-  obtain ⟨n1, hn1⟩ := h1
-  obtain ⟨n2, hn2⟩ := h2
-  refine ⟨n1 + n2 + 1, fun f hf => ?_⟩
-  obtain ⟨f', rfl⟩ : ∃ f', f = f' + 1 := ⟨f - 1, by omega⟩
-  simp [parseLoop, ho, hn1 f' (by omega), hn2 f' (by omega)]
+theorem ploop_stop_of {k k' : Nat} {e : Expr} {ts : List Tok} (h : stopsAbove k ts) (hk : k ≤ k') :
+    PLoop 1 k' e ts e ts :=
+  ploop_stop (fun t rest ht hb => by have := h t rest k' ht hb; omega)
+
+theorem ploop_step {n1 n2 k o acc x e ts r1 r} (ho : BinOp.plevel o = k)
+    (h1 : PLevel n1 (k + 1) ts x r1) (h2 : PLoop n2 k (.binary o acc x) r1 e r) :
+    PLoop (n1 + n2 + 1) k acc (.op o :: ts) e r := by
+  intro f hf
+  obtain ⟨f', rfl, hf'⟩ := succ_of_le hf
+  simp [parseLoop, ho, h1 f' (by omega), h2 f' (by omega)]
+
+theorem ploop_post {n acc p e ts r} (h : PLoop n 6 (.post acc p) ts e r) :
+    PLoop (n + 1) 6 acc (.post p :: ts) e r := by
+  intro f hf
+  obtain ⟨f', rfl, hf'⟩ := succ_of_le hf
+  simp [parseLoop, h f' hf']
 
 theorem stopsAbove_mono {k k' : Nat} {ts : List Tok} (h : stopsAbove k ts) (hk : k ≤ k') :
-    stopsAbove k' ts := fun o t ht => Nat.lt_of_lt_of_le (h o t ht) hk
+    stopsAbove k' ts := fun t rest b ht hb => Nat.lt_of_lt_of_le (h t rest b ht hb) hk
 
 theorem stopsAbove_rp (k : Nat) (t : List Tok) : stopsAbove k (.rp :: t) := by
-  intro o t' h; cases h
+  intro t' rest b h hb; cases h; simp [bl] at hb
 
 theorem stopsAbove_nil (k : Nat) : stopsAbove k [] := by
-  intro o t' h; cases h
+  intro t' rest b h; cases h
 
 theorem stopsAbove_op {k : Nat} {o : BinOp} {t : List Tok} (h : o.plevel < k) :
     stopsAbove k (.op o :: t) := by
-  intro o' t' he; cases he; exact h
+  intro t' rest b he hb; cases he; simp [bl] at hb; omega
+
+theorem stopsAbove_7 (ts : List Tok) : stopsAbove 7 ts := by
+  intro t rest b _ hb; have := bl_le6 hb; omega
 
 /-- a result obtained at a tighter level is also the result at every looser level whose loops
-all stop at the remaining input. -/
-theorem lift {j : Nat} (hj : j ≤ 6) {ts : List Tok} {x : Expr} {r : List Tok}
-    (h : PLevel j ts x r) : ∀ (d k : Nat), k + d = j → stopsAbove k r → PLevel k ts x r := by
+all stop at the remaining input (crossing the unary level needs a non-unary first token). -/
+theorem lift {n j : Nat} (hj : j ≤ 6) {ts : List Tok} {x : Expr} {r : List Tok}
+    (h : PLevel n j ts x r) (hb : j = 6 → startsBase ts) :
+    ∀ (d k : Nat), k + d = j → stopsAbove k r → PLevel (n + 2 * d) k ts x r := by
   intro d
   induction d with
   | zero => intro k hk _; have : k = j := by omega
             subst this; exact h
   | succ d ih =>
     intro k hk hs
-    have h1 : PLevel (k + 1) ts x r := ih (k + 1) (by omega) (stopsAbove_mono hs (by omega))
-    exact plevel_step (by omega) h1 (ploop_stop (fun o t ht => Nat.ne_of_lt (hs o t ht)))
-
-theorem plevel_le5 (o : BinOp) : o.plevel ≤ 5 := by cases o <;> decide
+    have h1 : PLevel (n + 2 * d) (k + 1) ts x r := ih (k + 1) (by omega) (stopsAbove_mono hs (by omega))
+    by_cases h5 : k = 5
+    · subst h5
+      have : j = 6 := by omega
+      have hd : d = 0 := by omega
+      subst hd
+      exact (plevel5 (pun_other h1 (hb this))).mono (by omega)
+    · exact (plevel_step (by omega) h1 (ploop_stop_of hs (Nat.le_refl k))).mono (by omega)
 
 theorem paren_append (ts T : List Tok) : paren ts ++ T = .lp :: (ts ++ .rp :: T) := by
   simp [paren]
@@ -143,109 +199,275 @@ theorem printE_binary (o : BinOp) (l r : Expr) :
   simp only [printE, lParen, rParen, sub]
   by_cases h1 : l.prec = 4 + o.pprec
   · simp [h1]
-  · by_cases h2 : r.prec = 4 + o.pprec ∧ o.noShortcut = false
+  · by_cases h2 : r.prec = 4 + o.pprec ∧ shortcutOk o r = true
     · simp [h1, h2]
     · simp [h1, h2]
+
+theorem lvl_le6 (e : Expr) : e.lvl ≤ 6 := by
+  cases e <;> simp [Expr.lvl]
+  have := plevel_le4 ‹BinOp›; omega
+
+theorem prec_le12 (e : Expr) : e.prec ≤ 12 := by
+  cases e <;> simp [Expr.prec]
+  rename_i o _ _; cases o <;> simp [BinOp.pprec]
+
+/-! ### first token of a printed expression -/
+
+def headBase (ts : List Tok) : Prop := ∃ t r, ts = t :: r ∧ (t = .lp ∨ ∃ a, t = .atom a)
+def headOk (ts : List Tok) : Prop :=
+  ∃ t r, ts = t :: r ∧ (t = .lp ∨ (∃ a, t = .atom a) ∨ t = .bang ∨ t = .op .minus)
+
+theorem headBase_append {ts : List Tok} (h : headBase ts) (T : List Tok) : headBase (ts ++ T) := by
+  obtain ⟨t, r, rfl, ht⟩ := h; exact ⟨t, r ++ T, rfl, ht⟩
+theorem headOk_append {ts : List Tok} (h : headOk ts) (T : List Tok) : headOk (ts ++ T) := by
+  obtain ⟨t, r, rfl, ht⟩ := h; exact ⟨t, r ++ T, rfl, ht⟩
+theorem headOk_of_base {ts : List Tok} (h : headBase ts) : headOk ts := by
+  obtain ⟨t, r, rfl, ht⟩ := h
+  exact ⟨t, r, rfl, by rcases ht with h | h; exact .inl h; exact .inr (.inl h)⟩
+theorem headBase_paren (ts : List Tok) : headBase (paren ts) := ⟨.lp, ts ++ [.rp], rfl, .inl rfl⟩
+
+theorem startsBase_of_headBase {ts : List Tok} (h : headBase ts) : startsBase ts := by
+  obtain ⟨t, r, rfl, ht⟩ := h
+  intro r'
+  constructor <;> intro he <;> cases he <;> rcases ht with h | ⟨a, h⟩ <;> cases h
+theorem notKw_of_headOk {ts : List Tok} (h : headOk ts) : notKw ts := by
+  obtain ⟨t, r, rfl, ht⟩ := h
+  intro k r'
+  constructor <;> intro he <;> cases he <;> rcases ht with h | ⟨a, h⟩ | h | h <;> cases h
+
+theorem head_base (e : Expr) (h : RT e = true) (ho : e.operandOk = true) (hl : e.lvl = 6) :
+    headBase (printE e) := by
+  induction e with
+  | atom a => exact ⟨.atom a, [], rfl, .inr ⟨a, rfl⟩⟩
+  | post e p ih =>
+    simp only [RT, Bool.and_eq_true, Bool.or_eq_true, decide_eq_true_eq] at h
+    simp only [printE, sub]
+    by_cases hp : needParen 1 false e = true
+    · simp only [hp, if_true]; exact headBase_append (headBase_paren _) _
+    · simp only [hp]
+      rcases h.2 with h2 | h2
+      · exact absurd h2 hp
+      · exact headBase_append (ih h.1 h2.1 (by have := lvl_le6 e; omega)) _
+  | unary u e _ => simp [Expr.lvl] at hl
+  | binary o l r _ _ => simp [Expr.lvl] at hl; have := plevel_le4 o; omega
+  | ifElse k => simp [Expr.operandOk] at ho
+  | matchE k => simp [Expr.operandOk] at ho
+  | lambda k b _ => simp [Expr.operandOk] at ho
+
+theorem head_ok (e : Expr) (h : RT e = true) (ho : e.operandOk = true) : headOk (printE e) := by
+  induction e with
+  | atom a => exact headOk_of_base (head_base _ h ho rfl)
+  | post e p _ => exact headOk_of_base (head_base _ h ho rfl)
+  | unary u e _ =>
+    cases u
+    · exact ⟨.bang, _, rfl, .inr (.inr (.inl rfl))⟩
+    · exact ⟨.op .minus, _, rfl, .inr (.inr (.inr rfl))⟩
+  | binary o l r ihl _ =>
+    simp only [RT, Bool.and_eq_true, Bool.or_eq_true, decide_eq_true_eq] at h
+    rw [printE_binary]
+    by_cases hp : lParen o l = true
+    · simp only [hp, if_true]; exact headOk_append (headOk_of_base (headBase_paren _)) _
+    · simp only [hp]
+      rcases h.1.2 with h2 | h2
+      · exact absurd h2 hp
+      · exact headOk_append (ihl h.1.1.1 h2.1) _
+  | ifElse k => simp [Expr.operandOk] at ho
+  | matchE k => simp [Expr.operandOk] at ho
+  | lambda k b _ => simp [Expr.operandOk] at ho
+
+/-! ### the main lemma -/
+
+/-- recursion budget sufficient for the printed form of `e` (linear in the number of tokens). -/
+def B : Expr → Nat
+  | .atom _ => 4
+  | .post e _ => B e + 60
+  | .unary _ e => B e + 60
+  | .binary _ l r => B l + B r + 120
+  | .ifElse _ => 4
+  | .matchE _ => 4
+  | .lambda _ b => B b + 60
 
 /-- conclusion of the main lemma for one expression. -/
 def MainConcl (e : Expr) : Prop :=
-  (6 ≤ e.lvl → ∀ rest, PLevel 6 (printE e ++ rest) e rest) ∧
-  (e.lvl ≤ 5 → ∀ rest x r1, stopsAbove (e.lvl + 1) rest → PLoop e.lvl e rest x r1 →
-    PLevel e.lvl (printE e ++ rest) x r1)
+  (e.operandOk = false → ∀ rest, stopsAbove 0 rest → PTop (B e) (printE e ++ rest) e rest) ∧
+  (e.operandOk = true → e.lvl = 5 → ∀ rest, stopsAbove 6 rest →
+    PLevel (B e) 5 (printE e ++ rest) e rest) ∧
+  (e.operandOk = true → e.lvl ≠ 5 → ∀ rest x r1 m, stopsAbove (e.lvl + 1) rest →
+    PLoop m e.lvl e rest x r1 → PLevel (B e + m) e.lvl (printE e ++ rest) x r1)
 
 /-- from the loop-invariant form to the plain form: at every level `k` not tighter than `e`'s
 own, with the loops of all levels ≥ `k` stopping at `rest`. -/
-theorem main_at {e : Expr} (hm : MainConcl e) {k : Nat} (hk : k ≤ e.lvl) (hk6 : k ≤ 6)
-    {rest : List Tok} (hs : stopsAbove k rest) : PLevel k (printE e ++ rest) e rest := by
-  by_cases h6 : 6 ≤ e.lvl
-  · exact lift (Nat.le_refl 6) (hm.1 h6 rest) (6 - k) k (by omega) hs
-  · have h5 : e.lvl ≤ 5 := by omega
-    have hl : PLoop e.lvl e rest e rest :=
-      ploop_stop (fun o t ht => by have := hs o t ht; omega)
-    have := hm.2 h5 rest e rest (stopsAbove_mono hs (by omega)) hl
-    exact lift (by omega) this (e.lvl - k) k (by omega) hs
+theorem main_at {e : Expr} (hm : MainConcl e) (hrt : RT e = true) (ho : e.operandOk = true)
+    {k : Nat} (hk : k ≤ e.lvl) {rest : List Tok} (hs : stopsAbove k rest) :
+    PLevel (B e + 16) k (printE e ++ rest) e rest := by
+  have h6 := lvl_le6 e
+  by_cases h5 : e.lvl = 5
+  · have := hm.2.1 ho h5 rest (stopsAbove_mono hs (by omega))
+    exact (lift (by omega) this (by omega) (5 - k) k (by omega) hs).mono (by omega)
+  · have hl : PLoop 1 e.lvl e rest e rest := ploop_stop_of hs hk
+    have := hm.2.2 ho h5 rest e rest 1 (stopsAbove_mono hs (by omega)) hl
+    refine (lift h6 this (fun h => ?_) (e.lvl - k) k (by omega) hs).mono (by omega)
+    exact startsBase_of_headBase (headBase_append (head_base e hrt ho h) rest)
 
-theorem operand_paren {s : Expr} (hm : MainConcl s) {k : Nat} (hk6 : k ≤ 6) {T : List Tok}
-    (hs : stopsAbove k T) : PLevel k (paren (printE s) ++ T) s T := by
+theorem main_top {e : Expr} (hm : MainConcl e) (hrt : RT e = true) {rest : List Tok}
+    (hs : stopsAbove 0 rest) : PTop (B e + 20) (printE e ++ rest) e rest := by
+  by_cases ho : e.operandOk = true
+  · have h0 := main_at hm hrt ho (Nat.zero_le _) hs
+    exact (ptop_level h0 (notKw_of_headOk (headOk_append (head_ok e hrt ho) rest))).mono (by omega)
+  · exact (hm.1 (by simpa using ho) rest hs).mono (by omega)
+
+theorem operand_paren {s : Expr} (hm : MainConcl s) (hrt : RT s = true) {k : Nat} (hk6 : k ≤ 6)
+    {T : List Tok} (hs : stopsAbove k T) : PLevel (B s + 40) k (paren (printE s) ++ T) s T := by
   rw [paren_append]
-  have h0 : PLevel 0 (printE s ++ .rp :: T) s (.rp :: T) :=
-    main_at hm (Nat.zero_le _) (by omega) (stopsAbove_rp 0 T)
-  have h6 : PLevel 6 (.lp :: (printE s ++ .rp :: T)) s T :=
-    plevel_un (Nat.le_refl 6) (pun_lp (pbase_paren h0))
-  exact lift (Nat.le_refl 6) h6 (6 - k) k (by omega) hs
-
-theorem lvl_atom_of_ge7 {e : Expr} (h : 7 ≤ e.lvl) : ∃ a, e = .atom a := by
-  cases e with
-  | atom a => exact ⟨a, rfl⟩
-  | unary u e => simp [Expr.lvl] at h
-  | binary o l r => have := plevel_le5 o; simp [Expr.lvl] at h; omega
+  have h0 := main_top hm hrt (stopsAbove_rp 0 T)
+  have h6 := plevel6 (Nat.le_refl 6) (pbase_paren h0) (ploop_stop_of (e := s) hs hk6)
+  refine (lift (Nat.le_refl 6) h6 (fun _ => ?_) (6 - k) k (by omega) hs).mono (by omega)
+  exact startsBase_of_headBase ⟨.lp, _, rfl, .inl rfl⟩
 
 /-- **Loop invariant of precedence climbing** for printed expressions. -/
 theorem main (e : Expr) (h : RT e = true) : MainConcl e := by
   induction e with
   | atom a =>
-    refine ⟨fun _ rest => ?_, fun h5 => by simp [Expr.lvl] at h5⟩
-    simp only [printE, List.singleton_append]
-    exact plevel_un (Nat.le_refl 6) (pun_atom (pbase_atom a rest))
+    refine ⟨fun ho => by simp [Expr.operandOk] at ho, fun _ h5 => by simp [Expr.lvl] at h5,
+      fun _ _ rest x r1 m _ hloop => ?_⟩
+    simp only [printE, List.singleton_append, Expr.lvl] at hloop ⊢
+    exact (plevel6 (Nat.le_refl 6) (pbase_atom a rest) hloop).mono (by simp only [B]; omega)
+  | ifElse k =>
+    refine ⟨fun _ rest _ => ?_, fun ho => by simp [Expr.operandOk] at ho,
+      fun ho => by simp [Expr.operandOk] at ho⟩
+    exact (ptop_if k rest).mono (by simp [B])
+  | matchE k =>
+    refine ⟨fun _ rest _ => ?_, fun ho => by simp [Expr.operandOk] at ho,
+      fun ho => by simp [Expr.operandOk] at ho⟩
+    exact (ptop_match k rest).mono (by simp [B])
+  | lambda k body ih =>
+    simp only [RT] at h
+    have hmb := ih h
+    refine ⟨fun _ rest hs => ?_, fun ho => by simp [Expr.operandOk] at ho,
+      fun ho => by simp [Expr.operandOk] at ho⟩
+    have hnp : needParen 12 false body = false := by
+      have := prec_le12 body; simp [needParen]; omega
+    simp only [printE, sub, hnp, List.cons_append]
+    have hb := pbase_lam k (main_top hmb h hs)
+    have h6 := plevel6 (Nat.le_refl 6) hb (ploop_stop_of (e := .lambda k body) hs (Nat.zero_le 6))
+    have hsb : startsBase (.lam k :: (printE body ++ rest)) := by
+      intro r; constructor <;> intro he <;> cases he
+    have h0 := lift (Nat.le_refl 6) h6 (fun _ => hsb) 6 0 (by omega) hs
+    have hnk : notKw (.lam k :: (printE body ++ rest)) := by
+      intro k' r; constructor <;> intro he <;> cases he
+    exact (ptop_level h0 hnk).mono (by simp only [B]; omega)
+  | post e p ih =>
+    simp only [RT, Bool.and_eq_true, Bool.or_eq_true, decide_eq_true_eq] at h
+    have hme := ih h.1
+    refine ⟨fun ho => by simp [Expr.operandOk] at ho, fun _ h5 => by simp [Expr.lvl] at h5,
+      fun _ _ rest x r1 m _ hloop => ?_⟩
+    simp only [Expr.lvl] at hloop ⊢
+    have hL : PLoop (m + 1) 6 e (.post p :: rest) x r1 := ploop_post hloop
+    simp only [printE, sub, List.append_assoc, List.singleton_append]
+    by_cases hp : needParen 1 false e = true
+    · simp only [hp, if_true, paren_append]
+      have hb := pbase_paren (main_top hme h.1 (stopsAbove_rp 0 (.post p :: rest)))
+      exact (plevel6 (Nat.le_refl 6) hb hL).mono (by simp only [B]; omega)
+    · simp only [hp]
+      rcases h.2 with h2 | h2
+      · exact absurd h2 hp
+      · have hl6 : e.lvl = 6 := by have := lvl_le6 e; omega
+        have := hme.2.2 h2.1 (by omega) (.post p :: rest) x r1 (m + 1) (by rw [hl6]; exact stopsAbove_7 _)
+          (by rw [hl6]; exact hL)
+        rw [hl6] at this
+        exact this.mono (by simp only [B]; omega)
   | unary u a iha =>
     simp only [RT, Bool.and_eq_true, Bool.or_eq_true, decide_eq_true_eq] at h
     have hma := iha h.1
-    refine ⟨fun _ rest => ?_, fun h5 => by simp [Expr.lvl] at h5⟩
-    have hb : PBase (sub 2 false a (printE a) ++ rest) a rest := by
+    refine ⟨fun ho => by simp [Expr.operandOk] at ho, fun _ _ rest hs => ?_,
+      fun _ h5 => by simp [Expr.lvl] at h5⟩
+    have hb : PLevel (B a + 40) 6 (sub 2 true a (printE a) ++ rest) a rest := by
       simp only [sub]
-      by_cases hp : needParen 2 false a = true
-      · simp only [hp, if_true, paren_append]
-        exact pbase_paren (main_at hma (Nat.zero_le _) (by omega) (stopsAbove_rp 0 rest))
-      · rcases h.2 with h2 | h2
+      by_cases hp : needParen 2 true a = true
+      · simp only [hp, if_true]
+        exact operand_paren hma h.1 (Nat.le_refl 6) hs
+      · simp only [hp]
+        rcases h.2 with h2 | h2
         · exact absurd h2 hp
-        · obtain ⟨n, rfl⟩ := lvl_atom_of_ge7 h2
-          simp only [hp, printE]
-          exact pbase_atom n rest
+        · have hl6 : a.lvl = 6 := by have := lvl_le6 a; omega
+          have := hma.2.2 h2.1 (by omega) rest a rest 1 (by rw [hl6]; exact stopsAbove_7 _)
+            (by rw [hl6]; exact ploop_stop_of hs (Nat.le_refl 6))
+          rw [hl6] at this
+          exact this.mono (by omega)
     simp only [printE, List.cons_append]
     cases u with
-    | not => exact plevel_un (Nat.le_refl 6) (pun_not hb)
-    | neg => exact plevel_un (Nat.le_refl 6) (pun_neg hb)
+    | not => exact (plevel5 (pun_not hb)).mono (by simp only [B]; omega)
+    | neg => exact (plevel5 (pun_neg hb)).mono (by simp only [B]; omega)
   | binary o l r ihl ihr =>
     simp only [RT, Bool.and_eq_true, Bool.or_eq_true, decide_eq_true_eq] at h
     obtain ⟨⟨⟨hl, hr⟩, hlb⟩, hrb⟩ := h
     have hml := ihl hl
     have hmr := ihr hr
-    have hj5 : o.plevel ≤ 5 := plevel_le5 o
-    refine ⟨fun h6 => by simp [Expr.lvl] at h6; omega, fun _ rest x r1 hs hloop => ?_⟩
+    have hj4 : o.plevel ≤ 4 := plevel_le4 o
+    refine ⟨fun ho => by simp [Expr.operandOk] at ho,
+      fun _ h5 => by simp [Expr.lvl] at h5; omega, fun _ _ rest x r1 m hs hloop => ?_⟩
     simp only [Expr.lvl] at hs hloop ⊢
     rw [printE_binary, List.append_assoc, List.cons_append]
     -- right operand
-    have hR : PLevel (o.plevel + 1)
+    have hR : PLevel (B r + 40) (o.plevel + 1)
         ((if rParen o l r then paren (printE r) else printE r) ++ rest) r rest := by
       by_cases hp : rParen o l r = true
       · simp only [hp, if_true]
-        exact operand_paren hmr (by omega) hs
+        exact operand_paren hmr hr (by omega) hs
       · simp only [hp]
         rcases hrb with h2 | h2
         · exact absurd h2 hp
-        · exact main_at hmr (by omega) (by omega) hs
-    have hL : PLoop o.plevel l
-        (.op o :: ((if rParen o l r then paren (printE r) else printE r) ++ rest)) x r1 :=
-      ploop_step rfl hR hloop
+        · exact (main_at hmr hr h2.1 (by omega) hs).mono (by omega)
+    have hL := ploop_step (acc := l) rfl hR hloop
     have hso : stopsAbove (o.plevel + 1)
         (.op o :: ((if rParen o l r then paren (printE r) else printE r) ++ rest)) :=
       stopsAbove_op (by omega)
     -- left operand
     by_cases hp : lParen o l = true
     · simp only [hp, if_true]
-      exact plevel_step (by omega) (operand_paren hml (by omega) hso) hL
+      exact (plevel_step (by omega) (operand_paren hml hl (by omega) hso) hL).mono (by simp only [B]; omega)
     · simp only [hp]
       rcases hlb with h2 | h2
       · exact absurd h2 hp
       · by_cases heq : l.lvl = o.plevel
-        · have := hml.2 (by omega) _ x r1 (by rw [heq]; exact hso) (by rw [heq]; exact hL)
+        · have := hml.2.2 h2.1 (by omega) _ x r1 _ (by rw [heq]; exact hso) (by rw [heq]; exact hL)
           rw [heq] at this
-          exact this
-        · exact plevel_step (by omega) (main_at hml (by omega) (by omega) hso) hL
+          exact this.mono (by simp only [B]; omega)
+        · exact (plevel_step (by omega) (main_at hml hl h2.1 (by omega) hso) hL).mono
+            (by simp only [B]; omega)
+
+/-! ### the budget of `parseE` suffices -/
+
+theorem length_sub (p : Nat) (b : Bool) (e : Expr) (ts : List Tok) :
+    ts.length ≤ (sub p b e ts).length := by
+  simp only [sub]; split <;> simp [paren] <;> omega
+
+theorem B_le (e : Expr) : B e ≤ 120 * (printE e).length := by
+  induction e with
+  | atom a => simp [B, printE]
+  | ifElse k => simp [B, printE]
+  | matchE k => simp [B, printE]
+  | lambda k b ih =>
+    have := length_sub 12 false b (printE b)
+    simp only [B, printE, List.length_cons]; omega
+  | post e p ih =>
+    have := length_sub 1 false e (printE e)
+    simp only [B, printE, List.length_append, List.length_cons, List.length_nil]; omega
+  | unary u e ih =>
+    have := length_sub 2 true e (printE e)
+    simp only [B, printE, List.length_cons]; omega
+  | binary o l r ihl ihr =>
+    rw [printE_binary]
+    have h1 : (printE l).length ≤ (if lParen o l then paren (printE l) else printE l).length := by
+      split <;> simp [paren] <;> omega
+    have h2 : (printE r).length ≤ (if rParen o l r then paren (printE r) else printE r).length := by
+      split <;> simp [paren] <;> omega
+    simp only [B, List.length_append, List.length_cons]; omega
 
 /-! ## The recursion budget only matters for definedness -/
 
 def MonoAt (f : Nat) : Prop :=
+  (∀ ts r, parseTop f ts = some r → parseTop (f + 1) ts = some r) ∧
   (∀ ts r, parseBase f ts = some r → parseBase (f + 1) ts = some r) ∧
   (∀ ts r, parseUnary f ts = some r → parseUnary (f + 1) ts = some r) ∧
   (∀ k ts r, parseLevel f k ts = some r → parseLevel (f + 1) k ts = some r) ∧
@@ -255,10 +477,24 @@ theorem mono_all : ∀ f, MonoAt f := by
   intro f
   induction f with
   | zero =>
-    refine ⟨?_, ?_, ?_, ?_⟩ <;> intros <;> simp_all [parseBase, parseUnary, parseLevel, parseLoop]
+    refine ⟨?_, ?_, ?_, ?_, ?_⟩ <;> intros <;> simp_all [parseTop, parseBase, parseUnary, parseLevel, parseLoop]
   | succ f ih =>
-    obtain ⟨hb, hu, hl, hp⟩ := ih
-    refine ⟨?_, ?_, ?_, ?_⟩
+    obtain ⟨ht, hb, hu, hl, hp⟩ := ih
+    refine ⟨?_, ?_, ?_, ?_, ?_⟩
+    · intro ts r h
+      cases ts with
+      | nil => rw [parseTop] at h ⊢ <;> first | exact hl _ _ _ h | (intros; contradiction)
+      | cons t ts =>
+        cases t with
+        | kwIf k => simpa [parseTop] using h
+        | kwMatch k => simpa [parseTop] using h
+        | lp => rw [parseTop] at h ⊢ <;> first | exact hl _ _ _ h | (intro _ _ he; cases he)
+        | rp => rw [parseTop] at h ⊢ <;> first | exact hl _ _ _ h | (intro _ _ he; cases he)
+        | bang => rw [parseTop] at h ⊢ <;> first | exact hl _ _ _ h | (intro _ _ he; cases he)
+        | op o => rw [parseTop] at h ⊢ <;> first | exact hl _ _ _ h | (intro _ _ he; cases he)
+        | atom a => rw [parseTop] at h ⊢ <;> first | exact hl _ _ _ h | (intro _ _ he; cases he)
+        | post a => rw [parseTop] at h ⊢ <;> first | exact hl _ _ _ h | (intro _ _ he; cases he)
+        | lam a => rw [parseTop] at h ⊢ <;> first | exact hl _ _ _ h | (intro _ _ he; cases he)
     · intro ts r h
       cases ts with
       | nil => simp [parseBase] at h
@@ -267,46 +503,67 @@ theorem mono_all : ∀ f, MonoAt f := by
         | atom a => simpa [parseBase] using h
         | lp =>
           simp only [parseBase] at h ⊢
-          cases h0 : parseLevel f 0 ts with
+          cases h0 : parseTop f ts with
           | none => simp [h0] at h
-          | some p => rw [hl 0 ts p h0]; simpa [h0] using h
+          | some p => rw [ht ts p h0]; simpa [h0] using h
+        | lam k =>
+          simp only [parseBase] at h ⊢
+          cases h0 : parseTop f ts with
+          | none => simp [h0] at h
+          | some p => rw [ht ts p h0]; simpa [h0] using h
         | rp => simp [parseBase] at h
         | bang => simp [parseBase] at h
         | op o => simp [parseBase] at h
+        | post a => simp [parseBase] at h
+        | kwIf a => simp [parseBase] at h
+        | kwMatch a => simp [parseBase] at h
     · intro ts r h
       cases ts with
-      | nil => simp only [parseUnary] at h ⊢; exact hb _ _ h
+      | nil => simp only [parseUnary] at h ⊢; exact hl _ _ _ h
       | cons t ts =>
         cases t with
         | bang =>
           simp only [parseUnary] at h ⊢
-          cases h0 : parseBase f ts with
+          cases h0 : parseLevel f 6 ts with
           | none => simp [h0] at h
-          | some p => rw [hb ts p h0]; simpa [h0] using h
+          | some p => rw [hl 6 ts p h0]; simpa [h0] using h
         | op o =>
           by_cases ho : o = .minus
           · subst ho
             simp only [parseUnary] at h ⊢
-            cases h0 : parseBase f ts with
+            cases h0 : parseLevel f 6 ts with
             | none => simp [h0] at h
-            | some p => rw [hb ts p h0]; simpa [h0] using h
+            | some p => rw [hl 6 ts p h0]; simpa [h0] using h
           · rw [parseUnary] at h ⊢
-            · exact hb _ _ h
+            · exact hl _ _ _ h
             all_goals (intro ts' hh; cases hh; first | exact ho rfl | skip)
-        | atom a => simp only [parseUnary] at h ⊢; exact hb _ _ h
-        | lp => simp only [parseUnary] at h ⊢; exact hb _ _ h
-        | rp => simp only [parseUnary] at h ⊢; exact hb _ _ h
+        | atom a => simp only [parseUnary] at h ⊢; exact hl _ _ _ h
+        | lp => simp only [parseUnary] at h ⊢; exact hl _ _ _ h
+        | rp => simp only [parseUnary] at h ⊢; exact hl _ _ _ h
+        | post a => simp only [parseUnary] at h ⊢; exact hl _ _ _ h
+        | kwIf a => simp only [parseUnary] at h ⊢; exact hl _ _ _ h
+        | kwMatch a => simp only [parseUnary] at h ⊢; exact hl _ _ _ h
+        | lam a => simp only [parseUnary] at h ⊢; exact hl _ _ _ h
     · intro k ts r h
       rw [parseLevel] at h ⊢
       by_cases hk : k ≥ 6
-      · simp only [hk, if_true] at h ⊢; exact hu _ _ h
-      · simp only [hk, if_false] at h ⊢
-        cases h0 : parseLevel f (k + 1) ts with
+      · simp only [hk, if_true] at h ⊢
+        cases h0 : parseBase f ts with
         | none => simp [h0] at h
         | some p =>
-          rw [hl (k + 1) ts p h0]
+          rw [hb ts p h0]
           simp only [h0] at h
           exact hp _ _ _ _ h
+      · simp only [hk, if_false] at h ⊢
+        by_cases h5 : k = 5
+        · simp only [h5, if_true] at h ⊢; exact hu _ _ h
+        · simp only [h5, if_false] at h ⊢
+          cases h0 : parseLevel f (k + 1) ts with
+          | none => simp [h0] at h
+          | some p =>
+            rw [hl (k + 1) ts p h0]
+            simp only [h0] at h
+            exact hp _ _ _ _ h
     · intro k e ts r h
       cases ts with
       | nil => simpa [parseLoop] using h
@@ -323,24 +580,204 @@ theorem mono_all : ∀ f, MonoAt f := by
               simp only [h0] at h
               exact hp _ _ _ _ h
           · simpa [ho] using h
+        | post p =>
+          simp only [parseLoop] at h ⊢
+          by_cases hk : k = 6
+          · simp only [hk, if_true] at h ⊢; exact hp _ _ _ _ h
+          · simpa [hk] using h
         | atom a => simpa [parseLoop] using h
         | lp => simpa [parseLoop] using h
         | rp => simpa [parseLoop] using h
         | bang => simpa [parseLoop] using h
+        | kwIf a => simpa [parseLoop] using h
+        | kwMatch a => simpa [parseLoop] using h
+        | lam a => simpa [parseLoop] using h
 
-theorem parseLevel_mono {f f' k : Nat} {ts : List Tok} {r : Expr × List Tok}
-    (h : parseLevel f k ts = some r) (hf : f ≤ f') : parseLevel f' k ts = some r := by
+theorem parseTop_mono {f f' : Nat} {ts : List Tok} {r : Expr × List Tok}
+    (h : parseTop f ts = some r) (hf : f ≤ f') : parseTop f' ts = some r := by
   obtain ⟨d, rfl⟩ : ∃ d, f' = f + d := ⟨f' - f, by omega⟩
   induction d with
   | zero => exact h
-  | succ d ih => exact (mono_all (f + d)).2.2.1 k ts r (ih (by omega))
+  | succ d ih => exact (mono_all (f + d)).1 ts r (ih (by omega))
+
+theorem ptop_of_some {f : Nat} {ts : List Tok} {e : Expr} {r : List Tok}
+    (h : parseTop f ts = some (e, r)) : PTop f ts e r := fun _ hf => parseTop_mono h hf
 
 theorem parseFuel_some {f : Nat} {ts : List Tok} {e : Expr} (h : parseFuel f ts = some e) :
-    parseLevel f 0 ts = some (e, []) := by
+    parseTop f ts = some (e, []) := by
   unfold parseFuel at h
   split at h
   · rename_i e' heq; cases h; exact heq
   · cases h
+
+/-! ## Appending a closing parenthesis to a successfully parsed input -/
+
+def ExtAt (f : Nat) : Prop :=
+  (∀ ts e r, parseTop f ts = some (e, r) → parseTop f (ts ++ [.rp]) = some (e, r ++ [.rp])) ∧
+  (∀ ts e r, parseBase f ts = some (e, r) → parseBase f (ts ++ [.rp]) = some (e, r ++ [.rp])) ∧
+  (∀ ts e r, parseUnary f ts = some (e, r) → parseUnary f (ts ++ [.rp]) = some (e, r ++ [.rp])) ∧
+  (∀ k ts e r, parseLevel f k ts = some (e, r) → parseLevel f k (ts ++ [.rp]) = some (e, r ++ [.rp])) ∧
+  (∀ k a ts e r, parseLoop f k a ts = some (e, r) → parseLoop f k a (ts ++ [.rp]) = some (e, r ++ [.rp]))
+
+theorem ext_all : ∀ f, ExtAt f := by
+  intro f
+  induction f with
+  | zero =>
+    refine ⟨?_, ?_, ?_, ?_, ?_⟩ <;> intros <;> simp_all [parseTop, parseBase, parseUnary, parseLevel, parseLoop]
+  | succ f ih =>
+    obtain ⟨ht, hb, hu, hl, hp⟩ := ih
+    refine ⟨?_, ?_, ?_, ?_, ?_⟩
+    · intro ts e r h
+      cases ts with
+      | nil =>
+        rw [parseTop] at h
+        · simp only [List.nil_append]
+          rw [parseTop]
+          · exact hl _ _ _ _ h
+          all_goals (intro _ _ he; cases he)
+        all_goals (intro _ _ he; cases he)
+      | cons t ts =>
+        cases t with
+        | kwIf k => simp only [parseTop, Option.some.injEq, Prod.mk.injEq] at h; simp [parseTop, h.1, h.2]
+        | kwMatch k => simp only [parseTop, Option.some.injEq, Prod.mk.injEq] at h; simp [parseTop, h.1, h.2]
+        | lp => rw [parseTop] at h; rw [List.cons_append, parseTop]; exact hl _ _ _ _ h; all_goals (intro _ _ he; cases he)
+        | rp => rw [parseTop] at h; rw [List.cons_append, parseTop]; exact hl _ _ _ _ h; all_goals (intro _ _ he; cases he)
+        | bang => rw [parseTop] at h; rw [List.cons_append, parseTop]; exact hl _ _ _ _ h; all_goals (intro _ _ he; cases he)
+        | op o => rw [parseTop] at h; rw [List.cons_append, parseTop]; exact hl _ _ _ _ h; all_goals (intro _ _ he; cases he)
+        | atom a => rw [parseTop] at h; rw [List.cons_append, parseTop]; exact hl _ _ _ _ h; all_goals (intro _ _ he; cases he)
+        | post a => rw [parseTop] at h; rw [List.cons_append, parseTop]; exact hl _ _ _ _ h; all_goals (intro _ _ he; cases he)
+        | lam a => rw [parseTop] at h; rw [List.cons_append, parseTop]; exact hl _ _ _ _ h; all_goals (intro _ _ he; cases he)
+    · intro ts e r h
+      cases ts with
+      | nil => simp [parseBase] at h
+      | cons t ts =>
+        cases t with
+        | atom a => simp only [parseBase, Option.some.injEq, Prod.mk.injEq] at h; simp [parseBase, h.1, h.2]
+        | lp =>
+          simp only [parseBase, List.cons_append] at h ⊢
+          cases h0 : parseTop f ts with
+          | none => simp [h0] at h
+          | some p =>
+            obtain ⟨e', r'⟩ := p
+            rw [ht ts e' r' h0]
+            simp only [h0] at h
+            cases r' with
+            | nil => simp at h
+            | cons t' r'' =>
+              cases t' <;> simp at h ⊢
+              exact ⟨h.1, by rw [h.2]⟩
+        | lam k =>
+          simp only [parseBase, List.cons_append] at h ⊢
+          cases h0 : parseTop f ts with
+          | none => simp [h0] at h
+          | some p =>
+            obtain ⟨e', r'⟩ := p
+            rw [ht ts e' r' h0]
+            simp only [h0, Option.some.injEq, Prod.mk.injEq] at h
+            simp [h.1, h.2]
+        | rp => simp [parseBase] at h
+        | bang => simp [parseBase] at h
+        | op o => simp [parseBase] at h
+        | post a => simp [parseBase] at h
+        | kwIf a => simp [parseBase] at h
+        | kwMatch a => simp [parseBase] at h
+    · intro ts e r h
+      cases ts with
+      | nil =>
+        simp only [parseUnary] at h
+        simp only [List.nil_append]
+        rw [parseUnary]
+        · exact hl _ _ _ _ h
+        all_goals (intro _ he; cases he)
+      | cons t ts =>
+        cases t with
+        | bang =>
+          simp only [parseUnary, List.cons_append] at h ⊢
+          cases h0 : parseLevel f 6 ts with
+          | none => simp [h0] at h
+          | some p =>
+            obtain ⟨e', r'⟩ := p
+            rw [hl 6 ts e' r' h0]
+            simp only [h0, Option.some.injEq, Prod.mk.injEq] at h
+            simp [h.1, h.2]
+        | op o =>
+          by_cases ho : o = .minus
+          · subst ho
+            simp only [parseUnary, List.cons_append] at h ⊢
+            cases h0 : parseLevel f 6 ts with
+            | none => simp [h0] at h
+            | some p =>
+              obtain ⟨e', r'⟩ := p
+              rw [hl 6 ts e' r' h0]
+              simp only [h0, Option.some.injEq, Prod.mk.injEq] at h
+              simp [h.1, h.2]
+          · rw [parseUnary] at h
+            · rw [List.cons_append, parseUnary]
+              · exact hl _ _ _ _ h
+              all_goals (intro ts' hh; cases hh; first | exact ho rfl | skip)
+            all_goals (intro ts' hh; cases hh; first | exact ho rfl | skip)
+        | atom a => simp only [parseUnary, List.cons_append] at h ⊢; exact hl _ _ _ _ h
+        | lp => simp only [parseUnary, List.cons_append] at h ⊢; exact hl _ _ _ _ h
+        | rp => simp only [parseUnary, List.cons_append] at h ⊢; exact hl _ _ _ _ h
+        | post a => simp only [parseUnary, List.cons_append] at h ⊢; exact hl _ _ _ _ h
+        | kwIf a => simp only [parseUnary, List.cons_append] at h ⊢; exact hl _ _ _ _ h
+        | kwMatch a => simp only [parseUnary, List.cons_append] at h ⊢; exact hl _ _ _ _ h
+        | lam a => simp only [parseUnary, List.cons_append] at h ⊢; exact hl _ _ _ _ h
+    · intro k ts e r h
+      rw [parseLevel] at h ⊢
+      by_cases hk : k ≥ 6
+      · simp only [hk, if_true] at h ⊢
+        cases h0 : parseBase f ts with
+        | none => simp [h0] at h
+        | some p =>
+          obtain ⟨e', r'⟩ := p
+          rw [hb ts e' r' h0]
+          simp only [h0] at h
+          exact hp _ _ _ _ _ h
+      · simp only [hk, if_false] at h ⊢
+        by_cases h5 : k = 5
+        · simp only [h5, if_true] at h ⊢; exact hu _ _ _ h
+        · simp only [h5, if_false] at h ⊢
+          cases h0 : parseLevel f (k + 1) ts with
+          | none => simp [h0] at h
+          | some p =>
+            obtain ⟨e', r'⟩ := p
+            rw [hl (k + 1) ts e' r' h0]
+            simp only [h0] at h
+            exact hp _ _ _ _ _ h
+    · intro k a ts e r h
+      cases ts with
+      | nil =>
+        simp only [parseLoop, Option.some.injEq, Prod.mk.injEq] at h
+        simp [parseLoop, h.1, ← h.2]
+      | cons t ts =>
+        cases t with
+        | op o =>
+          simp only [parseLoop, List.cons_append] at h ⊢
+          by_cases ho : o.plevel = k
+          · simp only [ho, if_true] at h ⊢
+            cases h0 : parseLevel f (k + 1) ts with
+            | none => simp [h0] at h
+            | some p =>
+              obtain ⟨e', r'⟩ := p
+              rw [hl (k + 1) ts e' r' h0]
+              simp only [h0] at h
+              exact hp _ _ _ _ _ h
+          · simp only [ho, if_false, Option.some.injEq, Prod.mk.injEq] at h ⊢
+            exact ⟨h.1, by rw [← h.2]; rfl⟩
+        | post p =>
+          simp only [parseLoop, List.cons_append] at h ⊢
+          by_cases hk : k = 6
+          · simp only [hk, if_true] at h ⊢; exact hp _ _ _ _ _ h
+          · simp only [hk, if_false, Option.some.injEq, Prod.mk.injEq] at h ⊢
+            exact ⟨h.1, by rw [← h.2]; rfl⟩
+        | atom x => simp only [parseLoop, Option.some.injEq, Prod.mk.injEq, List.cons_append] at h ⊢; exact ⟨h.1, by rw [← h.2]; rfl⟩
+        | lp => simp only [parseLoop, Option.some.injEq, Prod.mk.injEq, List.cons_append] at h ⊢; exact ⟨h.1, by rw [← h.2]; rfl⟩
+        | rp => simp only [parseLoop, Option.some.injEq, Prod.mk.injEq, List.cons_append] at h ⊢; exact ⟨h.1, by rw [← h.2]; rfl⟩
+        | bang => simp only [parseLoop, Option.some.injEq, Prod.mk.injEq, List.cons_append] at h ⊢; exact ⟨h.1, by rw [← h.2]; rfl⟩
+        | kwIf x => simp only [parseLoop, Option.some.injEq, Prod.mk.injEq, List.cons_append] at h ⊢; exact ⟨h.1, by rw [← h.2]; rfl⟩
+        | kwMatch x => simp only [parseLoop, Option.some.injEq, Prod.mk.injEq, List.cons_append] at h ⊢; exact ⟨h.1, by rw [← h.2]; rfl⟩
+        | lam x => simp only [parseLoop, Option.some.injEq, Prod.mk.injEq, List.cons_append] at h ⊢; exact ⟨h.1, by rw [← h.2]; rfl⟩
 
 /-! ## String literals -/
 
@@ -413,6 +850,109 @@ theorem unescape_id : ∀ (s : List Char), hasEscapedQuote s = false → unescap
     · unfold unescapeQuotes
       split
       · rename_i heq; cases heq; exact absurd ⟨rfl, rfl⟩ hcd
+      · rename_i heq; cases heq; rw [ih]
+      · rename_i heq; cases heq
+
+
+/-! ### escaping inverts unescaping on every lexed literal (after fix b0a5193) -/
+
+/-- every `"` is directly preceded by a backslash (`prev` = the character before the list is one). -/
+def quotesEscaped : Bool → List Char → Bool
+  | _, [] => true
+  | prev, c :: rest => if c = '"' then prev && quotesEscaped false rest else quotesEscaped (c = '\\') rest
+
+theorem quotesEscaped_true_of_false (s : List Char) (h : quotesEscaped false s = true) :
+    quotesEscaped true s = true := by
+  cases s with
+  | nil => rfl
+  | cons c rest =>
+    simp only [quotesEscaped] at h ⊢
+    by_cases hc : c = '"'
+    · simp [hc] at h
+    · simpa [hc] using h
+
+theorem quotesEscaped_false_of_true (s : List Char) (h : quotesEscaped true s = true)
+    (hs : ∀ r, s ≠ '"' :: r) : quotesEscaped false s = true := by
+  cases s with
+  | nil => rfl
+  | cons c rest =>
+    have hc : c ≠ '"' := fun e => hs rest (by rw [e])
+    simp only [quotesEscaped, hc, if_false] at h ⊢
+    exact h
+
+theorem closed_quotesEscaped (s : List Char) : ∀ acc, closedFrom acc s = true →
+    quotesEscaped (decide (countBackslashes acc % 2 = 1)) s = true := by
+  induction s with
+  | nil => intro acc _; rfl
+  | cons c rest ih =>
+    intro acc h
+    simp only [closedFrom] at h
+    by_cases h1 : c = '"' ∧ countBackslashes acc % 2 = 0
+    · simp [h1] at h
+    · by_cases h2 : c = '\n'
+      · simp [h2] at h
+      · simp only [h1, h2, if_false] at h
+        have ih' := ih (c :: acc) h
+        simp only [quotesEscaped]
+        by_cases hq : c = '"'
+        · subst hq
+          have hodd : countBackslashes acc % 2 = 1 := by
+            have : ¬ countBackslashes acc % 2 = 0 := fun e => h1 ⟨rfl, e⟩
+            omega
+          have h0 : countBackslashes ('"' :: acc) = 0 := by simp [countBackslashes]
+          simp only [h0] at ih'
+          simpa [hodd] using ih'
+        · simp only [hq, if_false]
+          by_cases hb : c = '\\'
+          · subst hb
+            simp only [decide_true]
+            by_cases hpar : countBackslashes ('\\' :: acc) % 2 = 1
+            · simpa [hpar] using ih'
+            · exact quotesEscaped_true_of_false _ (by simpa [hpar] using ih')
+          · have h0 : countBackslashes (c :: acc) = 0 := by
+              unfold countBackslashes
+              split
+              · rename_i heq; cases heq; exact absurd rfl hb
+              · rfl
+            simp only [h0] at ih'
+            simpa [hb] using ih'
+
+theorem escape_unescape : ∀ (s : List Char), quotesEscaped false s = true →
+    escapeQuotes (unescapeQuotes s) = s
+  | [], _ => by simp [unescapeQuotes, escapeQuotes]
+  | [c], h => by
+    have hc : c ≠ '"' := by
+      intro e; subst e; simp [quotesEscaped] at h
+    simp only [unescapeQuotes]
+    unfold escapeQuotes
+    split
+    · rename_i heq; cases heq; exact absurd rfl hc
+    · rename_i heq; cases heq; simp [escapeQuotes]
+    · rename_i heq; cases heq
+  | c :: d :: rest, h => by
+    by_cases hcd : c = '\\' ∧ d = '"'
+    · obtain ⟨rfl, rfl⟩ := hcd
+      have hr : quotesEscaped false rest = true := by
+        simp [quotesEscaped] at h; exact h
+      have ih := escape_unescape rest hr
+      simp only [unescapeQuotes, escapeQuotes, ih]
+    · have hc : c ≠ '"' := by
+        intro e; subst e; simp [quotesEscaped] at h
+      have h' : quotesEscaped (c = '\\') (d :: rest) = true := by
+        simpa [quotesEscaped, hc] using h
+      have hr : quotesEscaped false (d :: rest) = true := by
+        by_cases hb : c = '\\'
+        · refine quotesEscaped_false_of_true _ (by simpa [hb] using h') ?_
+          intro r e; cases e; exact hcd ⟨hb, rfl⟩
+        · simpa [hb] using h'
+      have ih := escape_unescape (d :: rest) hr
+      have hu : unescapeQuotes (c :: d :: rest) = c :: unescapeQuotes (d :: rest) := by
+        rw [unescapeQuotes]
+        intro r h1 h2; cases h2; exact hcd ⟨h1, rfl⟩
+      rw [hu]
+      unfold escapeQuotes
+      split
+      · rename_i heq; cases heq; exact absurd rfl hc
       · rename_i heq; cases heq; rw [ih]
       · rename_i heq; cases heq
 
